@@ -37,7 +37,7 @@ pub fn run_cli(args: &[&str], timeout: Duration) -> Result<CliOutput, String> {
         .stdout(Stdio::piped())
         .stderr(Stdio::piped())
         .spawn()
-        .map_err(|e| format!("cannot spawn weechess: {}", e))?;
+        .unwrap_or_else(|e| crate::runner::harness_fail(&format!("cannot spawn weechess: {}", e)));
     let mut out = child.stdout.take().unwrap();
     let mut err = child.stderr.take().unwrap();
     let to = std::thread::spawn(move || {
@@ -102,7 +102,7 @@ impl Uci {
             .stdout(Stdio::piped())
             .stderr(Stdio::piped())
             .spawn()
-            .map_err(|e| format!("cannot spawn weechess uci: {}", e))?;
+            .unwrap_or_else(|e| crate::runner::harness_fail(&format!("cannot spawn weechess uci: {}", e)));
         let stdin = child.stdin.take();
         let out = child.stdout.take().unwrap();
         let err = child.stderr.take().unwrap();
